@@ -50,6 +50,12 @@ def rooted_at(o, param: str) -> bool:
     return False
 
 
+def re_opaque(text: str) -> bool:
+    """Guard text of an 'alpha is 1 (or more)' test: `a >= 1`, `alpha >= 1.0`, `a == 1.0`."""
+    import re
+    return re.fullmatch(r"[A-Za-z_][\w.]* (>=|==) 1(\.0)?", text) is not None
+
+
 def alternatives(o):
     return list(o[1]) if o[0] == "phi" else [o]
 
@@ -150,6 +156,38 @@ def run(project, chk):
         chk.fail("W6", f2.short, norm_text(n), project.loc(f2.module, n), f"the parser's call closure writes module-level state {d}: the composite of a translucent colour can come from an earlier call with another background")
     if not dirty:
         chk.ok("W6", f"{project.loc(project.func(pentry).module, project.func(pentry).node)} core.color_parser.parse_color_to_rgb", f"the {len(pclosure)} functions in the parser's call closure write no module-level state", "effect summaries closed over the call graph")
+
+    # ---------------------------------------------------------------- W7: a parsed alpha always reaches the compositor
+    chk.rule("W7", "parse_color_to_rgb: on a path where an alpha component was read, what is returned is the compositor's result (alpha 0 is a value, not 'no alpha'): the uncomposited colour is returned only where no alpha was read")
+    pfi7 = project.func(f"{PAR}.parse_color_to_rgb")
+    cfg7 = build_cfg(pfi7.node)
+    org7 = Origins(project, pfi7, cfg7)
+    sc7 = Scope(project, pfi7)
+    PNT7 = f"{PAR}._parse_number_token"
+    from sa.dataflow import solve as _solve7
+
+    def reads_alpha(node):
+        for e in node_exprs(node):
+            for c in ast.walk(e):
+                if isinstance(c, ast.Call) and sc7.resolve_call(c) == PNT7:
+                    comp = next((k.value for k in c.keywords if k.arg == "component"), c.args[1] if len(c.args) > 1 else None)
+                    if isinstance(comp, ast.Constant) and comp.value is False:
+                        return True
+        return False
+    IN7, _ = _solve7(cfg7, frozenset({False}), lambda n, st: frozenset({True}) if reads_alpha(n) else st,
+                     lambda n, l, st: None if l == "exc" else st, lambda n, inc: frozenset().union(*[x for _, _, x in inc]))
+    n7 = 0
+    for node in cfg7.nodes:
+        if node.kind != "return" or node.ast.value is None or True not in (IN7.get(node.id) or ()):
+            continue
+        n7 += 1
+        o = org7.of(node.id, node.ast.value)
+        alts = alternatives(o)
+        comp_ok = all(a[0] == "call" and a[1] in (f"{CONV}.rgba_to_rgb", f"{CONV}.hsla_to_rgb") for a in alts)
+        opaque = any(v and re_opaque(t) for (t, v) in common_literals(guard_states(cfg7).get(node.id)))
+        chk.check(comp_ok or opaque, "W7", pfi7.short, norm_text(node.ast), project.loc(pfi7.module, node.ast), "after an alpha component was read the function returns the compositor's result",
+                  how=f"returned: {oshow(o)[:100]}", message=f"`{norm_text(node.ast)[:60]}` can return the uncomposited colour on a path where an alpha component was read (e.g. alpha 0 tested for truthiness): fully transparent text is judged as opaque")
+    chk.floor("returns after an alpha component was read", n7, 1)
 
     # ---------------------------------------------------------------- W3
     n_sites = 0
